@@ -118,6 +118,10 @@ class ConsoleVersionDecoder(
         version_length = buffer[1]
         version_start = 2
         version_end = version_start + version_length
+        if version_end > len(buffer):
+            raise comms.DecodeError(
+                f"Version string length ({version_length}) exceeds the message data"
+            )
         versions = buffer[version_start:version_end].decode(
             encoding=encoding.STRING_ENCODING
         )
